@@ -4,23 +4,47 @@
    container predicates are evaluated on the input container, so payload-changing children
    can make the payload violate them.  What is proved is the statement on the fragment
    [fp_ok]: scalars (no / default coercer, stable processors), None, equality, AlwaysValid,
-   IsDict, lists / uniform tuples with count-only container predicates, n-tuples, unions of
-   input-returning variants, Optional, Maybe, Lazy and cache wrappers, arbitrarily nested.
-   Sets, maps and record validators are covered by re-validation in the correspondence only. *)
-From Coq Require Import ZArith List Bool.
+   IsDict, lists / uniform tuples with count-only container predicates, n-tuples, sets and maps
+   without container predicates, DictValidatorAny and Dataclass / NamedTuple / TypedDict
+   validators with string keys and no whole-object validator (class-table names equal to the
+   schema's, a field without default is required, every declared default passes its field
+   validator), unions of input-returning variants, Optional, Maybe, Lazy and cache wrappers,
+   arbitrarily nested.  RecordValidator (user-supplied target) and container predicates on
+   sets / maps are covered by re-validation in the correspondence only.
+
+   Fuel: the second run may visit a validator the first did not (the validator of a field that
+   was absent and got its default), so the record theorem grants it D more fuel, D being the
+   fuel the declared defaults need; C17_fuel_is_an_artefact shows that more fuel never changes
+   an answer, and without record classes (D = 0) the same fuel suffices. *)
+From Coq Require Import ZArith List Bool Lia.
 From KV Require Import Base.PyVal Base.Prims Model.Validator Model.Sem
-     Proofs.Typed Proofs.Fixpoint.
+     Proofs.Typed Proofs.Mono Proofs.FixRec Proofs.Fixpoint.
 Import ListNotations.
 Open Scope nat_scope.
 
 Theorem C17_fixpoint_partial :
   forall E,
     (forall k x y, oracle E k x = Some y -> exact_type y (otype k) = true) ->
-    (forall r, fp_ok E (lazy_env E r)) ->
+    (forall r, fp_ok E 0 (lazy_env E r)) ->
     forall m fuel v x w,
-      fp_ok E v -> run E m fuel v x = OValid w -> run E m fuel v w = OValid w.
+      fp_ok E 0 v -> run E m fuel v x = OValid w -> run E m fuel v w = OValid w.
 Proof. exact run_fix. Qed.
 Print Assumptions C17_fixpoint_partial.
+
+Theorem C17_fixpoint_records_partial :
+  forall E D,
+    (forall k x y, oracle E k x = Some y -> exact_type y (otype k) = true) ->
+    (forall r, fp_ok E D (lazy_env E r)) ->
+    forall m fuel v x w,
+      fp_ok E D v -> run E m fuel v x = OValid w -> run E m (fuel + D) v w = OValid w.
+Proof. exact run_fix_fuel. Qed.
+Print Assumptions C17_fixpoint_records_partial.
+
+(* every validator kind: an answer other than "out of fuel" is the answer at every larger fuel *)
+Theorem C17_fuel_is_an_artefact :
+  forall E m n n' v x, n <= n' -> run E m n v x <> ONoFuel -> run E m n' v x = run E m n v x.
+Proof. exact run_mono. Qed.
+Print Assumptions C17_fuel_is_an_artefact.
 
 Theorem C17_builtin_processors_stable :
   forall E,
@@ -57,7 +81,7 @@ Section Example.
   Proof. split; vm_compute; reflexivity. Qed.
   (* non-vacuity: a member of the fragment and a run through it *)
   Definition tree := UTupleV (OptionalV (NoneV None) strip_str) [PMinItems 1] [] (Some CoTupleOrList).
-  Example C17_nonvacuous_fp_ok : fp_ok ex_env tree.
+  Example C17_nonvacuous_fp_ok : fp_ok ex_env 0 tree.
   Proof.
     cbn [fp_ok tree strip_str]. split; [right; reflexivity|]. split.
     - split; [left; reflexivity | apply procs_stable_strip_str].
@@ -67,5 +91,35 @@ Section Example.
   Example C17_nonvacuous_run :
     run ex_env Sync 4%nat tree (VList [VStr [32; 97]; VNone]) = OValid (VTuple [VStr [97]; VNone])
     /\ run ex_env Sync 4%nat tree (VTuple [VStr [97]; VNone]) = OValid (VTuple [VStr [97]; VNone]).
+  Proof. split; vm_compute; reflexivity. Qed.
+  (* a dataclass with a defaulted field inside a set-valued map: class 0 = (a: int, b: int = 5) *)
+  Definition rec_env : env :=
+    {| classes := fun _ => {| ckind_of := CkPlain; chash_of := true;
+                              cfields_of := [(VStr [97], None); (VStr [98], Some (VInt 5))] |};
+       upred := fun _ _ => true; uapred := fun _ _ => false; uproc := fun _ x => x;
+       ucoerce := fun _ x => Some x; ucompat := fun _ => [];
+       uinto := fun _ xs => VTuple xs; uobj := fun _ _ => None; uaobj := fun _ _ => None;
+       uvalid := fun _ _ _ x => OValid x; lazy_env := fun _ => AlwaysValid;
+       oracle := fun _ _ => None; re_match := fun _ _ => true; email_match := fun _ => true;
+       case_map := fun _ s => s |}.
+  Definition int_v := Scalar KInt None [] [] [].
+  Definition data_v := ClassV RkData 0%nat [(VStr [97], (int_v, true)); (VStr [98], (int_v, false))] None None true None.
+  Definition rec_tree := MapV strip_str (SetV data_v [] [] None) [] [] None.
+  Example C17_nonvacuous_records_fp_ok : fp_ok rec_env 1 rec_tree.
+  Proof.
+    cbn [fp_ok rec_tree data_v strip_str int_v].
+    split; [split; [left; reflexivity | apply procs_stable_strip_str]|].
+    split; [reflexivity|]. split.
+    { split; [split; [left; reflexivity | apply procs_stable_nil]|].
+      split; [split; [left; reflexivity | apply procs_stable_nil]|]. exact I. }
+    split; [reflexivity|].
+    constructor; [|constructor; [|constructor]]; cbn [fst snd]; intros v req [Hin|[Hin|[]]]; inversion Hin; subst;
+      try reflexivity; intros m0; destruct m0; reflexivity.
+  Qed.
+  Example C17_nonvacuous_records_run :
+    run rec_env Sync 4%nat rec_tree (VDict [(VStr [32; 107], VSet [VDict [(VStr [97], VInt 1)]])])
+    = OValid (VDict [(VStr [107], VSet [VObj 0%nat [(VStr [97], VInt 1); (VStr [98], VInt 5)]])])
+    /\ run rec_env Sync 5%nat rec_tree (VDict [(VStr [107], VSet [VObj 0%nat [(VStr [97], VInt 1); (VStr [98], VInt 5)]])])
+       = OValid (VDict [(VStr [107], VSet [VObj 0%nat [(VStr [97], VInt 1); (VStr [98], VInt 5)]])]).
   Proof. split; vm_compute; reflexivity. Qed.
 End Example.
